@@ -542,6 +542,10 @@ class AccessoryConn(asyncio.Protocol):
             if mode.startswith("http_"):
                 code = int(mode.split("_")[1])
                 return self.send(self._tlv_reply([(6, b"\x02"), (7, b"\x02")], code))
+            if mode.startswith("m2_errc:"):
+                # error reply and hang-up back to back (reply and FIN reach the controller together)
+                self.send(self._tlv_error_reply([(6, b"\x02"), (7, bytes([int(mode.split(":")[1])]))]))
+                return self.close()
             if mode.startswith("m2_err:"):
                 # m2_err:<error code>[:<http status>] - the TLV error reply may travel with an HTTP 4xx status
                 parts = mode.split(":")
@@ -578,6 +582,9 @@ class AccessoryConn(asyncio.Protocol):
                 return self.close()
             if mode == "hang_m4":
                 return None
+            if mode.startswith("m4_errc:"):
+                self.send(self._tlv_error_reply([(6, b"\x04"), (7, bytes([int(mode.split(":")[1])]))]))
+                return self.close()
             if mode.startswith("m4_err:"):
                 parts = mode.split(":")
                 return self.send(self._tlv_error_reply([(6, b"\x04"), (7, bytes([int(parts[1])]))], int(parts[2]) if len(parts) > 2 else 200))
